@@ -1,73 +1,611 @@
-// probe (temporary)
+//! C31 — CLI import/export transfers data faithfully and safely.
+//!
+//! Tie: the CLI crate is not a dependency of the harness; its source files are compiled into this
+//! binary with `#[path]`: `data_io.rs` (DataIO), `executor/mod.rs` (SqlExecutor::execute and the
+//! QueryResult it builds) which pulls in `executor/copy_handler.rs` (handle_copy) and
+//! `executor/validation.rs` unchanged.  Only `commands.rs` is replaced by a shim with the two
+//! enums `handle_copy` takes (the REPL's `\copy` line parser is not under test).
+//!
+//! Streams:
+//!  writer  model `writeCsv` vs `DataIO::export_csv`; oracle: an independent RFC 4180 reader gets the cells back
+//!  reader  model `importCsv` vs `DataIO::import_csv` on adversarial file texts (statement texts / error kind)
+//!  json    model `importJsonObj` vs `DataIO::import_json`
+//!  import  direct oracle through `handle_copy`: an RFC 4180 CSV / a JSON file imported into an empty
+//!          table gives exactly the file's records; nothing but values from the file reaches the table
+//!  copy    direct oracle: `handle_copy` export then import into an empty table of the same schema
 #![allow(dead_code)]
 mod commands {
     #[derive(Debug, Clone, Copy)]
-    pub enum CopyDirection { Export, Import }
+    pub enum CopyDirection {
+        Export,
+        Import,
+    }
     #[derive(Debug, Clone, Copy)]
-    pub enum CopyFormat { Csv, Json }
+    pub enum CopyFormat {
+        Csv,
+        Json,
+    }
 }
 #[path = "/repo/crates/vibesql-cli/src/data_io.rs"]
 mod data_io;
 #[path = "/repo/crates/vibesql-cli/src/executor/mod.rs"]
 mod executor;
-use commands::*;
-use executor::SqlExecutor;
 
-fn show(ex: &mut SqlExecutor, t: &str) {
-    match ex.execute(&format!("SELECT * FROM {}", t)) {
-        Ok(r) => println!("  {} rows: {:?}", t, r.rows),
-        Err(e) => println!("  select error: {}", e),
+use commands::*;
+use data_io::DataIO;
+use executor::{QueryResult, SqlExecutor};
+use serde_json::json;
+use vharness::sx::{hex_str, unhex_str};
+use vharness::*;
+use vibesql_parser::{Lexer, Token};
+use vibesql_types::SqlValue;
+
+// ---------------------------------------------------------------- quiet: the CLI code prints progress lines
+
+struct Quiet {
+    saved: i32,
+}
+impl Quiet {
+    fn new() -> Quiet {
+        use std::io::Write;
+        let _ = std::io::stdout().flush();
+        unsafe {
+            let saved = libc::dup(1);
+            let devnull = libc::open(b"/dev/null\0".as_ptr() as *const libc::c_char, libc::O_WRONLY);
+            libc::dup2(devnull, 1);
+            libc::dup2(devnull, 2);
+            libc::close(devnull);
+            Quiet { saved }
+        }
+    }
+}
+impl Drop for Quiet {
+    fn drop(&mut self) {
+        use std::io::Write;
+        let _ = std::io::stdout().flush();
+        unsafe {
+            libc::dup2(self.saved, 1);
+            libc::dup2(self.saved, 2); // stderr follows stdout in the check driver (2>&1)
+            libc::close(self.saved);
+        }
     }
 }
 
-fn main() {
-    let dir = "/tmp/agent-c19";
+fn quiet<T>(f: impl FnOnce() -> T) -> T {
+    let _q = Quiet::new();
+    f()
+}
+
+// ---------------------------------------------------------------- helpers
+
+const NASTY: &[&str] = &[
+    ",", "\"", "\"\"", "\n", "\r\n", "\r", " ", "\t", "'", "''", ";", "--", "a", "b", "1", "NULL", "x,y", "q\"r", "'); DROP TABLE s; --", "é", "漢", "😀", "(", ")", "\\", " pad ",
+];
+
+fn nasty(r: &mut Rng, max: u64) -> String {
+    let n = r.below(max + 1);
+    (0..n).map(|_| *r.pick(NASTY)).collect()
+}
+
+fn naive_safe(v: &str) -> bool {
+    !v.chars().any(|c| matches!(c, ',' | '"' | '\n' | '\r')) && v.trim() == v
+}
+
+fn rows_sx(rows: &[Vec<String>]) -> String {
+    format!("({})", rows.iter().map(|r| format!("({})", r.iter().map(|c| hex_str(c)).collect::<Vec<_>>().join(" "))).collect::<Vec<_>>().join(" "))
+}
+
+/// independent RFC 4180 reader (records end with LF, as the writer emits them)
+fn rfc_read(text: &str) -> Result<Vec<Vec<String>>, String> {
+    let cs: Vec<char> = text.chars().collect();
+    let mut rows = vec![];
+    let mut row: Vec<String> = vec![];
+    let mut i = 0;
+    while i < cs.len() {
+        // one field
+        let mut cell = String::new();
+        if cs[i] == '"' {
+            i += 1;
+            loop {
+                if i >= cs.len() {
+                    return Err("unterminated".into());
+                }
+                if cs[i] == '"' {
+                    if i + 1 < cs.len() && cs[i + 1] == '"' {
+                        cell.push('"');
+                        i += 2;
+                    } else {
+                        i += 1;
+                        break;
+                    }
+                } else {
+                    cell.push(cs[i]);
+                    i += 1;
+                }
+            }
+            if i < cs.len() && cs[i] != ',' && cs[i] != '\n' {
+                return Err("text after closing quote".into());
+            }
+        } else {
+            while i < cs.len() && cs[i] != ',' && cs[i] != '\n' {
+                if cs[i] == '"' {
+                    return Err("quote in unquoted field".into());
+                }
+                cell.push(cs[i]);
+                i += 1;
+            }
+        }
+        row.push(cell);
+        if i >= cs.len() {
+            rows.push(std::mem::take(&mut row));
+        } else if cs[i] == '\n' {
+            rows.push(std::mem::take(&mut row));
+            i += 1;
+        } else {
+            i += 1; // comma
+            if i >= cs.len() {
+                row.push(String::new());
+                rows.push(std::mem::take(&mut row));
+            }
+        }
+    }
+    Ok(rows)
+}
+
+/// RFC 4180 writer of the harness (always quotes what needs quoting; CR too)
+fn rfc_write(rows: &[Vec<String>]) -> String {
+    let mut s = String::new();
+    for r in rows {
+        let cells: Vec<String> = r
+            .iter()
+            .map(|c| if c.chars().any(|ch| matches!(ch, ',' | '"' | '\n' | '\r')) || c.is_empty() && r.len() == 1 { format!("\"{}\"", c.replace('"', "\"\"")) } else { c.clone() })
+            .collect();
+        s.push_str(&cells.join(","));
+        s.push('\n');
+    }
+    s
+}
+
+fn dbg_val(v: &Option<String>) -> String {
+    match v {
+        None => format!("{:?}", SqlValue::Null),
+        Some(s) => format!("{:?}", SqlValue::Varchar(s.clone())),
+    }
+}
+
+fn select_all(ex: &mut SqlExecutor, table: &str) -> Result<Vec<Vec<String>>, String> {
+    quiet(|| ex.execute(&format!("SELECT * FROM {}", table))).map(|r| r.rows).map_err(|e| e.to_string())
+}
+
+fn bag(mut rows: Vec<Vec<String>>) -> Vec<Vec<String>> {
+    rows.sort();
+    rows
+}
+
+fn tokens_of(s: &str) -> Result<Vec<Token>, String> {
+    Lexer::new(s).tokenize().map_err(|e| e.message)
+}
+
+/// direct oracle on one generated statement: its tokens are exactly
+/// INSERT INTO table ( col , … ) VALUES ( 'v' | NULL , … ) ;   with the expected column names and values
+fn statement_is_plain_insert(stmt: &str, table: &str, cols: &[String], vals: &[Option<String>]) -> Result<(), String> {
+    let toks = tokens_of(stmt)?;
+    let mut want: Vec<Token> = vec![];
+    let kw = |s: &str| tokens_of(s).unwrap()[0].clone();
+    want.push(kw("INSERT"));
+    want.push(kw("INTO"));
+    want.push(kw(table));
+    want.push(Token::LParen);
+    for (i, c) in cols.iter().enumerate() {
+        if i > 0 {
+            want.push(Token::Comma);
+        }
+        let t = tokens_of(c).map_err(|e| format!("column name does not lex: {}", e))?;
+        if t.len() != 2 {
+            return Err(format!("column name {:?} is not one token", c));
+        }
+        want.push(t[0].clone());
+    }
+    want.push(Token::RParen);
+    want.push(kw("VALUES"));
+    want.push(Token::LParen);
+    for (i, v) in vals.iter().enumerate() {
+        if i > 0 {
+            want.push(Token::Comma);
+        }
+        match v {
+            Some(s) => want.push(Token::String(s.clone())),
+            None => want.push(kw("NULL")),
+        }
+    }
+    want.push(Token::RParen);
+    want.push(Token::Semicolon);
+    want.push(Token::Eof);
+    if toks == want {
+        Ok(())
+    } else {
+        Err(format!("tokens {:?}\nexpected {:?}", toks, want))
+    }
+}
+
+// ---------------------------------------------------------------- streams
+
+fn writer_case(rows: &[Vec<String>], path: &str, model: &mut model::Model, rep: &mut Report) {
+    let special = rows.iter().flatten().any(|c| !naive_safe(c));
+    rep.case(&format!("writer {}", rows_sx(rows)), special);
+    rep.count(if special { "writer_cells_needing_quotes" } else { "writer_plain" });
+    let qr = QueryResult { columns: rows[0].clone(), rows: rows[1..].to_vec(), row_count: rows.len() - 1, execution_time_ms: None };
+    let res = quiet(|| DataIO::export_csv(&qr, path));
+    if let Err(e) = res {
+        rep.fail(FailKind::Oracle, None, "export_csv failed", &format!("rows: {:?}\nerror: {}", rows, e));
+        return;
+    }
+    let text = std::fs::read_to_string(path).unwrap_or_default();
+    let reply = model.ask(&format!("writecsv {}", rows_sx(rows)));
+    rep.traces_validated += 1;
+    if unhex_str(&reply).as_deref() != Some(text.as_str()) {
+        rep.fail(FailKind::ModelDiff, None, "CSV writer: model and export_csv differ", &format!("rows: {:?}\ncode: {:?}\nmodel: {:?}", rows, text, unhex_str(&reply)));
+    }
+    // direct oracle: a correct reader gets the cells back
+    match rfc_read(&text) {
+        Ok(back) if back == rows => {}
+        other => rep.fail(FailKind::Oracle, None, "an RFC 4180 reader does not get back the exported cells", &format!("rows: {:?}\nfile: {:?}\nread back: {:?}", rows, text, other)),
+    }
+    // the model's reference reader agrees with the harness's (validates the reference reader of T1)
+    let r2 = model.ask(&format!("parsecsv {}", hex_str(&text)));
+    if r2 != format!("(ok {})", rows_sx(rows)) {
+        rep.fail(FailKind::ModelDiff, None, "model reference reader does not invert the real writer", &format!("file: {:?}\nmodel: {}", text, r2));
+    }
+}
+
+fn reader_case(text: &str, path: &str, model: &mut model::Model, rep: &mut Report) {
+    std::fs::write(path, text).unwrap();
+    let real = quiet(|| DataIO::import_csv(path, "t"));
+    let reply = model.ask(&format!("importcsv {} {}", hex_str("t"), hex_str(text)));
+    let want = match &real {
+        Ok(stmts) => format!("(ok{})", stmts.iter().map(|s| format!(" {}", hex_str(s))).collect::<String>()),
+        Err(e) => {
+            let m = e.to_string();
+            if m.contains("CSV file is empty") {
+                "(err empty)".to_string()
+            } else if let Some(rest) = m.strip_prefix("Row ") {
+                format!("(err count {})", rest.split(' ').next().unwrap_or("?"))
+            } else {
+                format!("(err other {})", hex_str(&m))
+            }
+        }
+    };
+    rep.case(&format!("reader {}", hex_str(text)), matches!(&real, Ok(s) if !s.is_empty()) && text.contains('"') | text.contains('\''));
+    rep.count(match &real {
+        Ok(_) => "reader_ok",
+        Err(_) => "reader_err",
+    });
+    rep.traces_validated += 1;
+    if reply != want {
+        rep.fail(FailKind::ModelDiff, None, "CSV reader: model and import_csv differ", &format!("file: {:?}\nfile (hex): {}\ncode: {}\nmodel: {}", text, hex_str(text), want, reply));
+    }
+}
+
+fn json_value_text(v: &serde_json::Value) -> String {
+    match v {
+        serde_json::Value::String(s) => s.clone(),
+        serde_json::Value::Number(n) => n.to_string(),
+        serde_json::Value::Bool(b) => b.to_string(),
+        serde_json::Value::Null => "NULL".to_string(),
+        other => other.to_string(),
+    }
+}
+
+fn json_case(objs: &[Vec<(String, serde_json::Value)>], path: &str, model: &mut model::Model, rep: &mut Report) {
+    let arr: Vec<serde_json::Value> = objs.iter().map(|o| serde_json::Value::Object(o.iter().cloned().collect())).collect();
+    let text = serde_json::to_string(&arr).unwrap();
+    std::fs::write(path, &text).unwrap();
+    let real = quiet(|| DataIO::import_json(path, "t"));
+    rep.case(&format!("json {}", text), objs.iter().flatten().any(|(k, v)| !naive_safe(k) || !naive_safe(&json_value_text(v))));
+    let parsed: Vec<serde_json::Map<String, serde_json::Value>> = serde_json::from_str(&text).unwrap();
+    match real {
+        Ok(stmts) => {
+            rep.count("json_ok");
+            if stmts.len() != parsed.len() {
+                rep.fail(FailKind::Oracle, None, "import_json does not produce one statement per object", &format!("file: {}\nstatements: {:?}", text, stmts));
+                return;
+            }
+            for (o, st) in parsed.iter().zip(stmts.iter()) {
+                let pairs = format!("({})", o.iter().map(|(k, v)| format!("({} {})", hex_str(k), hex_str(&json_value_text(v)))).collect::<Vec<_>>().join(" "));
+                let reply = model.ask(&format!("importjson {} {}", hex_str("t"), pairs));
+                rep.traces_validated += 1;
+                if unhex_str(&reply).as_deref() != Some(st.as_str()) {
+                    rep.fail(FailKind::ModelDiff, None, "JSON import: model and import_json differ", &format!("object: {:?}\ncode: {:?}\nmodel: {:?}", o, st, unhex_str(&reply)));
+                }
+                // direct oracle on the statement text (only when the keys are column-like: that is
+                // what validation guarantees before these statements are run)
+                if o.keys().all(|k| k.chars().all(|c| c.is_ascii_alphanumeric() || c == '_') && k.chars().next().map(|c| c.is_ascii_alphabetic()).unwrap_or(false)) {
+                    let cols: Vec<String> = o.keys().cloned().collect();
+                    let vals: Vec<Option<String>> = o.values().map(|v| {
+                        let t = json_value_text(v);
+                        if matches!(v, serde_json::Value::Null) { None } else { Some(t) }
+                    }).collect();
+                    if let Err(why) = statement_is_plain_insert(st, "t", &cols, &vals) {
+                        let null_text = o.values().any(|v| matches!(v, serde_json::Value::String(s) if s == "NULL"));
+                        rep.fail(FailKind::Oracle, if null_text { Some("C31/json-null-string") } else { None }, "generated INSERT is not a plain insert of the object's values", &format!("object: {:?}\nstatement: {}\n{}", o, st, why));
+                    }
+                }
+            }
+        }
+        Err(e) => {
+            rep.count("json_err");
+            if !parsed.is_empty() && parsed.iter().all(|o| !o.is_empty()) {
+                rep.fail(FailKind::Oracle, None, "import_json rejects a well-formed array of non-empty objects", &format!("file: {}\nerror: {}", text, e));
+            }
+        }
+    }
+}
+
+struct ImportCase {
+    cols: Vec<(String, String)>, // name, SQL type
+    header: Vec<String>,
+    records: Vec<Vec<Option<String>>>,
+}
+
+fn new_table(cols: &[(String, String)]) -> SqlExecutor {
     let mut ex = SqlExecutor::new(None).unwrap();
-    ex.execute("CREATE TABLE t (a INTEGER, b VARCHAR(50))").unwrap();
-    ex.execute("INSERT INTO t VALUES (1, 'x,y')").unwrap();
-    ex.execute("INSERT INTO t VALUES (2, 'q\"r')").unwrap();
-    let p = format!("{}/t.csv", dir);
-    println!("export: {:?}", ex.handle_copy("t", &p, CopyDirection::Export, CopyFormat::Csv).map_err(|e| e.to_string()));
-    println!("{}", std::fs::read_to_string(&p).unwrap());
-    let pj = format!("{}/t.json", dir);
-    println!("export json: {:?}", ex.handle_copy("t", &pj, CopyDirection::Export, CopyFormat::Json).map_err(|e| e.to_string()));
-    println!("{}", std::fs::read_to_string(&pj).unwrap());
-    let mut ex2 = SqlExecutor::new(None).unwrap();
-    ex2.execute("CREATE TABLE t (a INTEGER, b VARCHAR(50))").unwrap();
-    println!("import: {:?}", ex2.handle_copy("t", &p, CopyDirection::Import, CopyFormat::Csv).map_err(|e| e.to_string()));
-    show(&mut ex2, "t");
-    println!("import json: {:?}", ex2.handle_copy("t", &pj, CopyDirection::Import, CopyFormat::Json).map_err(|e| e.to_string()));
-    show(&mut ex2, "t");
-    // proper csv into typed table
-    std::fs::write(&p, "a,b\n1,hello\n2,\"x,y\"\n3, pad \n4,NULL\n5,it's\n").unwrap();
-    println!("import2: {:?}", ex2.handle_copy("t", &p, CopyDirection::Import, CopyFormat::Csv).map_err(|e| e.to_string()));
-    show(&mut ex2, "t");
-    let mut ex3 = SqlExecutor::new(None).unwrap();
-    ex3.execute("CREATE TABLE s (a VARCHAR(50), b VARCHAR(50))").unwrap();
-    std::fs::write(&p, "a,b\n1,hello\n2,\"x,y\"\n3, pad \n4,NULL\n5,it's\n6,\"q\"\"r\"\n7,'); DROP TABLE s; --\n").unwrap();
-    println!("import3: {:?}", ex3.handle_copy("s", &p, CopyDirection::Import, CopyFormat::Csv).map_err(|e| e.to_string()));
-    show(&mut ex3, "s");
-    std::fs::write(&pj, r#"[{"a":"1","b":"NULL"},{"a":"2","b":null},{"a":3,"b":true},{"a":"x","b":[1,2]}]"#).unwrap();
-    println!("import json3: {:?}", ex3.handle_copy("s", &pj, CopyDirection::Import, CopyFormat::Json).map_err(|e| e.to_string()));
-    show(&mut ex3, "s");
-    std::fs::write(&pj, r#"[{"a":"1","b":"ok"},{"a) VALUES ('INJECTED'); DROP TABLE s; --":"2","b":"z"}]"#).unwrap();
-    println!("import json4: {:?}", ex3.handle_copy("s", &pj, CopyDirection::Import, CopyFormat::Json).map_err(|e| e.to_string()));
-    show(&mut ex3, "s");
-    std::fs::write(&pj, r#"[{"a":"1","b":"ok"},{"a, b) VALUES ('INJ', 'ECTED') --":"2"}]"#).unwrap();
-    println!("import json5: {:?}", ex3.handle_copy("s", &pj, CopyDirection::Import, CopyFormat::Json).map_err(|e| e.to_string()));
-    show(&mut ex3, "s");
-    // csv header injection
-    std::fs::write(&p, "a,b\n1,2\n").unwrap();
-    std::fs::write(&p, "a, b\nx,y\n").unwrap();
-    println!("import hdr-space: {:?}", ex3.handle_copy("s", &p, CopyDirection::Import, CopyFormat::Csv).map_err(|e| e.to_string()));
-    show(&mut ex3, "s");
-    std::fs::write(&p, "a\nonly\n").unwrap();
-    println!("import subset: {:?}", ex3.handle_copy("s", &p, CopyDirection::Import, CopyFormat::Csv).map_err(|e| e.to_string()));
-    show(&mut ex3, "s");
-    // empty table export
-    let mut ex4 = SqlExecutor::new(None).unwrap();
-    ex4.execute("CREATE TABLE e (a VARCHAR(5))").unwrap();
-    println!("export empty: {:?}", ex4.handle_copy("e", &p, CopyDirection::Export, CopyFormat::Csv).map_err(|e| e.to_string()));
-    println!("{:?}", std::fs::read_to_string(&p).unwrap());
-    println!("import empty: {:?}", ex4.handle_copy("e", &p, CopyDirection::Import, CopyFormat::Csv).map_err(|e| e.to_string()));
+    let ddl = format!("CREATE TABLE s ({})", cols.iter().map(|(n, t)| format!("{} {}", n, t)).collect::<Vec<_>>().join(", "));
+    quiet(|| ex.execute(&ddl)).unwrap();
+    ex
+}
+
+/// expected rows (Debug text as `execute` reports them) when the records are inserted as data
+fn expected_rows(c: &ImportCase) -> Vec<Vec<String>> {
+    c.records
+        .iter()
+        .map(|rec| {
+            c.cols
+                .iter()
+                .map(|(name, _)| match c.header.iter().position(|h| h.eq_ignore_ascii_case(name)) {
+                    Some(i) => dbg_val(&rec[i]),
+                    None => dbg_val(&None),
+                })
+                .collect()
+        })
+        .collect()
+}
+
+fn import_csv_case(c: &ImportCase, path: &str, rep: &mut Report) {
+    let mut rows: Vec<Vec<String>> = vec![c.header.clone()];
+    rows.extend(c.records.iter().map(|r| r.iter().map(|v| v.clone().unwrap_or_default()).collect()));
+    let text = rfc_write(&rows);
+    std::fs::write(path, &text).unwrap();
+    let mut ex = new_table(&c.cols);
+    let res = quiet(|| ex.handle_copy("s", path, CopyDirection::Import, CopyFormat::Csv));
+    let got = select_all(&mut ex, "s").unwrap_or_default();
+    let want = expected_rows(c);
+    // the naive reader is right exactly when no cell needs RFC 4180 treatment and the file uses no quoting
+    let cells_safe = rows.iter().flatten().all(|v| naive_safe(v)) && !text.contains('"');
+    rep.case(&format!("import-csv {}", hex_str(&text)), !c.records.is_empty() && !cells_safe);
+    rep.count(if cells_safe { "import_csv_plain_cells" } else { "import_csv_cells_needing_rfc4180" });
+    if bag(got.clone()) != bag(want.clone()) {
+        let sig = if !cells_safe { Some("C31/csv-reader-naive") } else { None };
+        rep.fail(FailKind::Oracle, sig, "an RFC 4180 CSV file is not imported as its records", &format!("table columns: {:?}\nfile:\n{}\nhandle_copy: {:?}\ntable after import: {:?}\nexpected: {:?}", c.cols, text, res.map_err(|e| e.to_string()), got, want));
+    }
+    // safety: whatever happened, only values from the file are in the table
+    let allowed: std::collections::HashSet<String> = rows.iter().flatten().flat_map(|v| vec![dbg_val(&Some(v.clone())), dbg_val(&Some(v.trim().to_string()))]).chain(std::iter::once(dbg_val(&None))).collect();
+    // (cells cut at commas / line breaks by the naive reader are pieces of file values: also data)
+    let foreign: Vec<&String> = got.iter().flatten().filter(|v| !allowed.contains(*v)).collect();
+    if !foreign.is_empty() && cells_safe {
+        rep.fail(FailKind::Oracle, None, "import put a value into the table that is not in the file", &format!("file:\n{}\nforeign values: {:?}", text, foreign));
+    }
+}
+
+fn import_json_case(c: &ImportCase, hostile_key: Option<&str>, path: &str, rep: &mut Report) {
+    let mut arr = vec![];
+    for (i, rec) in c.records.iter().enumerate() {
+        let mut o = serde_json::Map::new();
+        for (h, v) in c.header.iter().zip(rec.iter()) {
+            o.insert(h.clone(), match v {
+                Some(s) => serde_json::Value::String(s.clone()),
+                None => serde_json::Value::Null,
+            });
+        }
+        if let (Some(k), true) = (hostile_key, i == c.records.len() - 1 && i > 0) {
+            o.insert(k.to_string(), serde_json::Value::String("payload".into()));
+        }
+        arr.push(serde_json::Value::Object(o));
+    }
+    let text = serde_json::to_string(&arr).unwrap();
+    std::fs::write(path, &text).unwrap();
+    let mut ex = new_table(&c.cols);
+    let res = quiet(|| ex.handle_copy("s", path, CopyDirection::Import, CopyFormat::Json));
+    let got = select_all(&mut ex, "s").unwrap_or_default();
+    let want = expected_rows(c);
+    let null_text = c.records.iter().flatten().any(|v| v.as_deref() == Some("NULL"));
+    rep.case(&format!("import-json {}", text), !c.records.is_empty());
+    rep.count(if hostile_key.is_some() { "import_json_hostile_key" } else { "import_json" });
+    if hostile_key.is_some() && c.records.len() > 1 {
+        // the file does not fit the table: nothing but the file's values may reach the table
+        let allowed: std::collections::HashSet<String> = c.records.iter().flatten().map(dbg_val).chain(vec![dbg_val(&None), dbg_val(&Some("payload".into()))]).collect();
+        let foreign: Vec<&String> = got.iter().flatten().filter(|v| !allowed.contains(*v)).collect();
+        if !foreign.is_empty() {
+            rep.fail(FailKind::Oracle, None, "JSON import put text from an object key into the table", &format!("file: {}\nhandle_copy: {:?}\ntable after import: {:?}\nforeign values: {:?}", text, res.map_err(|e| e.to_string()), got, foreign));
+        }
+        return;
+    }
+    if bag(got.clone()) != bag(want.clone()) {
+        let sig = if null_text { Some("C31/json-null-string") } else { None };
+        rep.fail(FailKind::Oracle, sig, "a JSON file is not imported as its records", &format!("table columns: {:?}\nfile: {}\nhandle_copy: {:?}\ntable after import: {:?}\nexpected: {:?}", c.cols, text, res.map_err(|e| e.to_string()), got, want));
+    }
+}
+
+/// export with `\copy t TO file`, import into an empty table of the same schema, compare
+fn copy_case(cols: &[(String, String)], inserts: &[String], format: CopyFormat, path: &str, rep: &mut Report) {
+    let mut ex = new_table(cols);
+    for i in inserts {
+        if let Err(e) = quiet(|| ex.execute(i)) {
+            panic!("harness precondition: {} => {}", i, e);
+        }
+    }
+    let before = select_all(&mut ex, "s").unwrap_or_default();
+    let exp = quiet(|| ex.handle_copy("s", path, CopyDirection::Export, format));
+    let file = std::fs::read_to_string(path).unwrap_or_default();
+    let mut ex2 = new_table(cols);
+    let imp = quiet(|| ex2.handle_copy("s", path, CopyDirection::Import, format));
+    let after = select_all(&mut ex2, "s").unwrap_or_default();
+    rep.case(&format!("copy {:?} {:?} {:?}", format, cols, inserts), !before.is_empty());
+    rep.count(&format!("copy_{:?}_{}", format, if before.is_empty() { "empty_table" } else { "rows" }));
+    if bag(before.clone()) != bag(after.clone()) {
+        // the recorded defect: export writes the header `Column` and Debug text of the values
+        let debug_format = !before.is_empty() && (file.starts_with("Column") || file.contains("\"Column\""));
+        let sig = if debug_format { Some("C31/export-debug-format") } else { None };
+        rep.fail(
+            FailKind::Oracle,
+            sig,
+            "export then import into an empty table of the same schema does not reproduce the rows",
+            &format!("CREATE TABLE s {:?}\n{}\nexport: {:?}\nfile:\n{}\nimport: {:?}\nrows before: {:?}\nrows after: {:?}", cols, inserts.join(";\n"), exp.map_err(|e| e.to_string()), file, imp.map_err(|e| e.to_string()), before, after),
+        );
+    }
+}
+
+fn gen_import_case(r: &mut Rng, plain: bool) -> ImportCase {
+    let ncols = r.range(1, 3) as usize;
+    let cols: Vec<(String, String)> = (0..ncols).map(|i| (format!("c{}", i), "VARCHAR(200)".to_string())).collect();
+    // header: a permutation of a non-empty subset of the columns, case varied
+    let mut idx: Vec<usize> = (0..ncols).collect();
+    r.shuffle(&mut idx);
+    let keep = r.range(1, ncols as i64) as usize;
+    let header: Vec<String> = idx[..keep].iter().map(|i| if r.chance(1, 3) { format!("C{}", i) } else { format!("c{}", i) }).collect();
+    let nrec = r.range(0, 4) as usize;
+    let records = (0..nrec)
+        .map(|_| {
+            header
+                .iter()
+                .map(|_| {
+                    let s = if plain { (0..r.below(4)).map(|_| *r.pick(&["a", "b", "1", "it's", "x y", ";", "--", "é", "(", "NULL"])).collect::<String>() } else { nasty(r, 4) };
+                    Some(s)
+                })
+                .collect()
+        })
+        .collect();
+    ImportCase { cols, header, records }
+}
+
+fn main() {
+    std::panic::set_hook(Box::new(|info| {
+        if std::env::var("VERIF_SHOW_PANICS").is_ok() || info.location().map(|l| !l.file().starts_with('/') || l.file().contains("/verif/")).unwrap_or(false) {
+            eprintln!("harness panic: {}", info);
+        }
+    }));
+    let args = Args::parse("C31");
+    let mut rep = Report::new(
+        &args,
+        "cases: writer = table of cells; reader = CSV file text; json = array of objects; import-csv / import-json = (table, file); \
+         copy = (table contents, format). Non-trivial: some cell needs RFC 4180 quoting or has outer blanks / the file yields statements and \
+         contains quotes / the table has rows. Distinct by hash of the case.",
+    );
+    rep.assumptions.push("tie = CLI source files compiled into the harness with #[path] (data_io.rs, executor/mod.rs, executor/copy_handler.rs, executor/validation.rs); commands.rs replaced by a two-enum shim; the REPL's \\copy line parsing is not exercised".into());
+    rep.assumptions.push("reference CSV dialect: RFC 4180 quoting, records end with LF (what export_csv writes)".into());
+    rep.assumptions.push("import oracles use VARCHAR columns: every imported value is a quoted string literal (see notes for typed columns)".into());
+    let mut model = args.model();
+    let mut rng = Rng::new(args.seed);
+    let path = args.scratch.join("data.csv").display().to_string();
+    let pathj = args.scratch.join("data.json").display().to_string();
+
+    // ---- deterministic probes
+    let cells = ["", "a", "x,y", "q\"r", "\"", "\"\"", "x\ny", "x\r\ny", "x\r", " pad ", "it's", "'); DROP TABLE s; --", "NULL", ",", "\n", "é漢😀", "a\"", "\"a", "a,", ",a"];
+    for c in cells.iter() {
+        writer_case(&[vec!["h".into()], vec![c.to_string()]], &path, &mut model, &mut rep);
+        writer_case(&[vec!["h1".into(), "h2".into()], vec![c.to_string(), "z".into()], vec!["z".into(), c.to_string()]], &path, &mut model, &mut rep);
+        let ic = ImportCase { cols: vec![("a".into(), "VARCHAR(200)".into()), ("b".into(), "VARCHAR(200)".into())], header: vec!["a".into(), "b".into()], records: vec![vec![Some(c.to_string()), Some("k".into())], vec![Some("k".into()), Some(c.to_string())]] };
+        import_csv_case(&ic, &path, &mut rep);
+        import_json_case(&ic, None, &pathj, &mut rep);
+    }
+    for t in ["", "\n", "a\n", "a,b\n1,2\n", "a,b\n1\n", "a\n\"x\"\n", "a\r\n1\r\n", "a\n1\r", "a,b\n\"x,y\",2\n", "a\n\n1\n", "a\n1", " a , b \n 1 , 2 \n", "a\n'\n", "a,b\n1,2,3\n", "\n1\n"] {
+        reader_case(t, &path, &mut model, &mut rep);
+    }
+    for k in ["a) VALUES ('INJECTED'); DROP TABLE s; --", "a, b) VALUES ('INJ', 'ECTED') --", "nosuchcolumn", "a\"", "b) SELECT ('x"] {
+        let ic = ImportCase { cols: vec![("a".into(), "VARCHAR(200)".into()), ("b".into(), "VARCHAR(200)".into())], header: vec!["a".into(), "b".into()], records: vec![vec![Some("1".into()), Some("ok".into())], vec![Some("2".into()), Some("z".into())]] };
+        import_json_case(&ic, Some(k), &pathj, &mut rep);
+    }
+    // a JSON null is NULL; the JSON string "NULL" should be the four letters
+    json_case(&[vec![("a".into(), json!("NULL")), ("b".into(), json!(null))]], &pathj, &mut model, &mut rep);
+    json_case(&[vec![("a".into(), json!(1)), ("b".into(), json!(true))], vec![("a".into(), json!([1, 2])), ("b".into(), json!({"k": "v'"}))]], &pathj, &mut model, &mut rep);
+    // export then import
+    let vc = vec![("a".to_string(), "INTEGER".to_string()), ("b".to_string(), "VARCHAR(50)".to_string())];
+    for fmt in [CopyFormat::Csv, CopyFormat::Json] {
+        copy_case(&vc, &[], fmt, &path, &mut rep);
+        copy_case(&vc, &["INSERT INTO s VALUES (1, 'x')".to_string()], fmt, &path, &mut rep);
+        copy_case(&vc, &["INSERT INTO s VALUES (1, 'x,y')".to_string(), "INSERT INTO s VALUES (2, 'q\"r')".to_string()], fmt, &path, &mut rep);
+        copy_case(&[("a".to_string(), "VARCHAR(20)".to_string())], &["INSERT INTO s VALUES ('plain')".to_string()], fmt, &path, &mut rep);
+    }
+
+    // ---- generated
+    for i in 0..args.n(1500, 40000) {
+        let mut r = rng.fork();
+        let ncols = r.range(1, 4) as usize;
+        let nrows = r.range(1, 4) as usize;
+        let rows: Vec<Vec<String>> = (0..nrows).map(|_| (0..ncols).map(|_| nasty(&mut r, 4)).collect()).collect();
+        if i < 2 {
+            rep.sample(json!({"stream": "writer", "rows": rows}));
+        }
+        writer_case(&rows, &path, &mut model, &mut rep);
+    }
+    let csv_alphabet = [",", "\"", "\n", "\r\n", "\r", " ", "a", "b", "1", "'", "''", "x y", "\"q\"", ";", "é", "\n\n", "\t"];
+    for i in 0..args.n(4000, 100000) {
+        let mut r = rng.fork();
+        let k = r.range(0, 12);
+        let text: String = (0..k).map(|_| *r.pick(&csv_alphabet)).collect();
+        if i < 2 {
+            rep.sample(json!({"stream": "reader", "file": text}));
+        }
+        reader_case(&text, &path, &mut model, &mut rep);
+    }
+    for i in 0..args.n(1200, 30000) {
+        let mut r = rng.fork();
+        let nobj = r.range(1, 3) as usize;
+        let objs: Vec<Vec<(String, serde_json::Value)>> = (0..nobj)
+            .map(|_| {
+                let nk = r.range(1, 3) as usize;
+                (0..nk)
+                    .map(|j| {
+                        let key = if r.chance(1, 5) { nasty(&mut r, 2) + "k" } else { format!("k{}", j) };
+                        let v = match r.below(7) {
+                            0 => json!(null),
+                            1 => json!(r.range(-1000, 1000)),
+                            2 => json!(r.chance(1, 2)),
+                            3 => json!([1, "x'"]),
+                            4 => json!("NULL"),
+                            _ => json!(nasty(&mut r, 4)),
+                        };
+                        (key, v)
+                    })
+                    .collect()
+            })
+            .collect();
+        if i < 2 {
+            rep.sample(json!({"stream": "json", "objects": format!("{:?}", objs)}));
+        }
+        json_case(&objs, &pathj, &mut model, &mut rep);
+    }
+    for i in 0..args.n(600, 15000) {
+        let mut r = rng.fork();
+        let plain = r.chance(1, 2);
+        let c = gen_import_case(&mut r, plain);
+        if i < 2 {
+            rep.sample(json!({"stream": "import", "header": c.header, "records": format!("{:?}", c.records)}));
+        }
+        import_csv_case(&c, &path, &mut rep);
+        import_json_case(&c, None, &pathj, &mut rep);
+        if r.chance(1, 4) {
+            let k = nasty(&mut r, 3) + ") VALUES ('X'); --";
+            import_json_case(&c, Some(&k), &pathj, &mut rep);
+        }
+    }
+    for _ in 0..args.n(150, 4000) {
+        let mut r = rng.fork();
+        let nrows = r.range(0, 3) as usize;
+        let inserts: Vec<String> = (0..nrows).map(|_| format!("INSERT INTO s VALUES ({}, '{}')", r.range(-50, 50), nasty(&mut r, 3).replace('\'', "''"))).collect();
+        let fmt = if r.chance(1, 2) { CopyFormat::Csv } else { CopyFormat::Json };
+        copy_case(&vc, &inserts, fmt, &path, &mut rep);
+    }
+    rep.extra.insert("model_requests".into(), json!(model.requests));
+    rep.extra.insert("tie".into(), json!("#[path] include of the CLI sources (see assumptions)"));
+    std::process::exit(rep.finish());
 }
